@@ -237,6 +237,20 @@ impl IngressInfo {
     }
 }
 
+#[cfg(feature = "verif-hooks")]
+impl Register {
+    /// Verification hook: a register whose serial starts at `serial`.
+    pub fn verif_with_serial(serial: u32) -> Self {
+        Self { serial: serial.into(), info: RwLock::new(HashMap::new()) }
+    }
+    pub fn verif_register(&self) -> IngressId { self.register() }
+    pub fn verif_update_info(
+        &self, id: IngressId, new_info: IngressInfo,
+    ) -> Option<IngressInfo> {
+        self.update_info(id, new_info)
+    }
+}
+
 #[cfg(test)]
 mod tests {
 
